@@ -42,11 +42,15 @@ def run(ctx):
             h = rep.get("histograms", {}).get("mir_match_checker", {})
             ctx.obligation("reach:match-bindings-verified-on-real-mir", h.get("binding-extractions-verified", 0) >= 3000 and h.get("no-dump", 0) == 0,
                            f"{h} (the hook dump of the scripts' MIR no longer reaches the checker)")
+            # … and calls: aggregate / owned values handed to a call that the second verified checker
+            # `argumentsAreConsumed` accepted (no read, drop, move or pass of the variable after the call)
+            ctx.obligation("reach:call-arguments-verified-on-real-mir", h.get("call-arguments-verified", 0) >= 3000,
+                           f"{h} (no record / enum / owned call argument of the scripts' MIR reached the checker)")
     ctx.trusted += [
         "usize is modelled as Nat: no wrap-around in layout arithmetic (sizes of real types are far below 2^64)",
         "leaf layouts (primitives, String, List, registered types) are whatever the runtime reports; theorems assume only that they pass Layout::new's asserts",
         "modelled, not verified: the memory operations themselves (Cranelift loads/stores/memcpy, the registered clone/drop/eq functions)",
-        "match_bindings_read_the_switched_value_mir is about `Model/ValueMir.flatten` of the dumped item: that reading of the MIR's control flow and of what an instruction does to a variable (assign / set discriminant / drop / move / call argument = affects; discriminant(v); clone(v.<variant field>)) is definitional, and the dump itself (verif_hooks::c03, numeric) is trusted to render the MIR the compiler goes on to lower",
+        "match_bindings_read_the_switched_value_mir and call_arguments_are_consumed_mir are about `Model/ValueMir.flatten` of the dumped item: that reading of the MIR's control flow and of what an instruction does to a variable (assign / set discriminant / drop / move / call argument = affects; discriminant(v); clone(v.<variant field>); uses = any read, drop, move, pass, switch or return of v or a part; defs = `v = …` as a whole; hands = call argument whose parameter type is a record / enum / needs a drop, read off the item's own type table) is definitional, and the dump itself (verif_hooks::c03, numeric) is trusted to render the MIR the compiler goes on to lower",
         "T8 (constructors hold their values) is about the hand transliteration `Model/ValueCtor.lower` of Lowerer::record/binop/assign/block and the executed meaning of MIR assignments given there; the real lowerer's MIR is run against the spec per generated program (and compared instruction for instruction, measured), not proved equal for all programs",
     ]
     return ctx.finish(
